@@ -194,7 +194,11 @@ fn transfer(case: &Value, out: &mut Obj) -> Result<(), Obj> {
                 "wrong_index" => coe.inject = Some(SdoInject::WrongIndex),
                 "wrong_sub" => coe.inject = Some(SdoInject::WrongSub),
                 "emergency" => {
-                    mb.pending_emergency = Some((0x8130, 0x11, [1, 2, 3, 4, 5]));
+                    mb.pending_emergency = Some((
+                        get_u64(case, "emergency_code", 0x8130) as u16,
+                        get_u64(case, "emergency_register", 0x11) as u8,
+                        [1, 2, 3, 4, 5],
+                    ));
                     mb.emergency_replaces_reply = false;
                 }
                 "emergency_only" => {
@@ -317,6 +321,7 @@ fn hostile(case: &Value, out: &mut Obj) -> Result<(), Obj> {
         mb.scripted_replies = replies.iter().cloned().collect();
         mb.scripted_repeat_last = get_bool(case, "repeat_last", false);
         mb.scripted_burst = get_bool(case, "burst", false);
+        mb.scripted_endless = get_bool(case, "endless", false);
     }
     let frames0 = env.frames;
     let t0 = simrun::now_us();
